@@ -220,6 +220,22 @@ int main(int argc, char** argv) {
       std::string outdir = argv[7];
       long budgetMs = argc >= 9 ? atol(argv[8]) : 0;
       int maxFail = argc >= 10 ? atoi(argv[9]) : 3;
+      // classes the calling check owns (prefixes, comma separated): only those count towards maxFail; a violation
+      // of another property's class is reported (the first few) and the batch goes on looking for its own
+      std::vector<std::string> own;
+      if (argc >= 11) {
+        std::string all = argv[10];
+        size_t a = 0;
+        while (a <= all.size()) {
+          size_t e = all.find(',', a);
+          if (e == std::string::npos)
+            e = all.size();
+          if (e > a)
+            own.push_back(all.substr(a, e - a));
+          a = e + 1;
+        }
+      }
+      int foreign = 0;
       auto t0 = std::chrono::steady_clock::now();
       uint64_t done = 0, steps = 0;
       int fails = 0;
@@ -250,8 +266,16 @@ int main(int argc, char** argv) {
           writeFile(path, cut != std::string::npos ? o.msg.substr(cut + 15) : p.text());
           printf("FAIL run=%llu class=%s plan=%s msg=%s\n", (unsigned long long)run, o.cls.c_str(), path.c_str(),
                  oneLine(o.msg).c_str());
-          if (++fails >= maxFail)
+          bool mine = own.empty();
+          for (auto& pre : own)
+            if (o.cls.compare(0, pre.size(), pre) == 0)
+              mine = true;
+          if (!mine) {
+            if (++foreign >= 40)
+              break;
+          } else if (++fails >= maxFail) {
             break;
+          }
         } else if (done <= 3) {
           std::string t = p.text();
           if (t.size() > 1500)
